@@ -82,15 +82,19 @@ func (b *backendConfigSessionHandler) HandlePacket(pc *proto.PacketContext) {
 	case *plugin.Message:
 		b.handlePluginMessage(pc, p)
 	case *packet.Disconnect:
-		b.serverConn.disconnect()
 		// If the player receives a DisconnectPacket without a connection to a server in progress,
 		// it means that the backend server has kicked the player during reconfiguration
 		if b.serverConn.player.connectionInFlight() != nil {
+			// Complete the request with the kick reason before closing the
+			// connection: closing runs Disconnected(), which would complete it
+			// with a generic error first and start a second, concurrent recovery.
 			result := disconnectResultForPacket(b.log.V(1), p,
 				b.serverConn.player.Protocol(), b.serverConn.server, true,
 			)
 			b.requestCtx.result(result, nil)
+			b.serverConn.disconnect()
 		} else {
+			b.serverConn.disconnect()
 			b.serverConn.player.handleDisconnect(b.serverConn.server, p, true)
 		}
 	case *packet.Transfer:
